@@ -145,6 +145,38 @@ def empty_input():
     return Harness(body, [('d', IntRange(0, len(DOCS) - 1))], describe=lambda a: {'document': DOCS[a['d']]}, bounds={'documents': DOCS})
 
 
+REF_TABLES = 'Table a {\n  b int\n  b_c int\n  c int\n}\nTable a_b {\n  b int\n  c int\n  b_c int\n}\n'
+REF_COLS = ['b', 'b_c', 'c']
+REF_OPS = ['>', '<', '-', '<>']
+
+
+def ref_shapes(op, form):
+    """every pairing of endpoints of a reference between (or inside) two tables whose generated names can coincide
+    (a.b_c / a_b.c, a column related to itself, composite sides that coincide): whatever parses must render"""
+    from harness.common import IntRange
+    args = [('lt', IntRange(0, 1)), ('lc', IntRange(0, 2)), ('rt', IntRange(0, 1)), ('rc', IntRange(0, 2))]
+
+    def build(a):
+        a = dict(a, form=form)
+        L, R = ('a', 'a_b')[a['lt']], ('a', 'a_b')[a['rt']]
+        lc, rc = REF_COLS[a['lc']], REF_COLS[a['rc']]
+        if a['form'] == 0:
+            return REF_TABLES + 'Ref: ' + L + '.' + lc + ' ' + op + ' ' + R + '.' + rc + '\n'
+        if a['form'] == 1:
+            return REF_TABLES + 'Ref r {\n  ' + L + '.(' + lc + ', ' + rc + ') ' + op + ' ' + R + '.(' + lc + ', ' + rc + ')\n}\n'
+        return ('Table a_b {\n  b int\n  c int\n  b_c int\n}\nTable a {\n  b int\n  b_c int\n  c int\n  x' + lc + ' int [ref: ' + op + ' '
+                + R + '.' + rc + ']\n}\n')
+
+    def body(a):
+        try:
+            outcome = ('ok', docs.parse(build(a)))
+        except Exception as e:
+            outcome = ('raise', e)
+        return _judge(a, None, '', outcome)
+
+    return Harness(body, args, describe=lambda a: {'document': build(a)}, bounds={'operator': op, 'form': ['short', 'block composite', 'inline'][form], 'tables': REF_TABLES})
+
+
 LITERALS = {
     # outside the bounds of the symbolic families (K characters per hole): reported by the sub-agent that seeded C08 changes
     'huge_integer_default': "Table t {\n  c int [default: " + '1' * 4301 + "]\n}\n",
@@ -186,6 +218,12 @@ def instances(tier):
                     out.append({'name': f'{tag}/{element}/b{b}/K2', 'factory': 'replace_token',
                                 'params': {'element': element, 'batch': b, 'K': 2, 'inner': inner}, 'timeout': T1, 'native_limit': 80})
     out.append({'name': 'empty_input', 'factory': 'empty_input', 'params': {}, 'timeout': T1, 'native_limit': 20})
+    for op in REF_OPS:
+        for form in range(3):
+            if quick and op != '<>' and (op, form) not in (('>', 0), ('<', 2), ('-', 1)):
+                continue
+            out.append({'name': 'ref_shapes/' + {'>': 'gt', '<': 'lt', '-': 'one', '<>': 'm2m'}[op] + '/' + ['short', 'block', 'inline'][form],
+                        'factory': 'ref_shapes', 'params': {'op': op, 'form': form}, 'timeout': T1, 'native_limit': 120})
     heavy = ('col_settings', 'col_type', 'col_type_paren', 'enum', 'project', 'group', 'default')
     for pfx in PREFIXES:
         for closed in ((True,) if pfx not in SUFFIXES else (True, False)):
